@@ -15,9 +15,9 @@ import (
 func init() {
 	register(&CheckSpec{
 		ID: "C20", Fn: c20, Resume: true, Level: "fault_enumeration",
-		Rule:        "round trip: a book built with the cache on and a new Book loading that cache are compared entry by entry (keys, counters, successor lists as sequences); crash points: for cache files of books of several sizes EVERY prefix length 0..len-1 (every byte for files up to 16 KB, every byte of the first and last 4 KB plus a stride in between for larger ones) is installed as the cache and Initialize(useCache=true, recreate=false) is run under a watchdog; corruptions: bit flips, overwritten ranges, zero fill, appended garbage, each first classified by decoding the same bytes with encoding/gob in the harness (only undecodable variants must yield the source book; decodable ones must merely not crash or hang); repeated initialisation in the same process after a failed load; a hang is a violation only if the in-process goroutine dump proves a deadlock; after a proven hang the process is restarted after that case; distinct = distinct (book, fault) cases",
+		Rule:        "round trip: a book built with the cache on and a new Book loading that cache are compared entry by entry (keys, counters, successor lists as sequences); crash points: for cache files of books of several sizes EVERY prefix length 0..len-1 (every byte for files up to 16 KB, every byte of the first and last 4 KB plus a stride in between for larger ones) is installed as the cache and Initialize(useCache=true, recreate=false) is run under a watchdog; corruptions: bit flips, overwritten ranges, zero fill, appended garbage, each first classified by decoding the same bytes with encoding/gob in the harness (only undecodable variants must yield the source book; decodable ones must merely not crash or hang); repeated initialisation in the same process after a failed load, and re-initialisation (recreateCache) of a Book object that was served from the cache; a hang is a violation only if the in-process goroutine dump proves a deadlock; after a proven hang the process is restarted after that case; distinct = distinct (book, fault) cases",
 		Assumptions: []string{"the source-built book of the same file is the reference (its correctness is C19's subject)", "successor order of a rebuilt book may differ (parallel build): compared as sets there, as sequences for the cache round trip"},
-		Required:    []string{"books", "roundtrips", "crash_points", "crash_points_first_4k", "corruptions_undecodable", "corruptions_decodable", "repeated_init_after_failed_load", "missing_cache", "empty_cache"},
+		Required:    []string{"books", "roundtrips", "crash_points", "crash_points_first_4k", "corruptions_undecodable", "corruptions_decodable", "repeated_init_after_failed_load", "missing_cache", "empty_cache", "reinit_after_cache_load"},
 		MinEvals:    1000,
 		TimeoutQ:    20 * 60e9,
 	})
@@ -159,6 +159,18 @@ func c20(c *Ctx) {
 					}
 					if d := snapBook(b1, want).equal(snapBook(b2, want), false); d != "" {
 						rep.Viol("cache:roundtrip-differs", "the book loaded from the cache differs from the book that was saved: "+d, map[string]interface{}{"book": bi, "games": nGames})
+					}
+					// the same Book object, already served from the cache, is initialised again with
+					// the cache to be recreated: what it held must not leak into the rebuilt book
+					var err2 error
+					if pn, msg := guard(func() { err2 = b2.Initialize(dir, file, openingbook.Simple, true, true) }); pn {
+						rep.Viol("cache:reinit-after-cache-load:panic", "Initialize(recreate) on a Book served from the cache panics: "+msg, map[string]interface{}{"book": bi})
+					} else if err2 == nil {
+						rep.Eval(1)
+						rep.Inc("reinit_after_cache_load")
+						if d := refSnap.equal(snapBook(b2, want), true); d != "" {
+							rep.Viol("cache:reinit-after-cache-load:book-differs", "a Book served from the cache and initialised again with recreateCache=true differs from the source-built book: "+d, map[string]interface{}{"book": bi, "games": nGames})
+						}
 					}
 				}
 			}
